@@ -74,6 +74,33 @@ def pushAlts (c : Codec) (bytes : List Byte) : String :=
     | none => "* ; *"
     | some z => " || ".intercalate ("refused n=0 ; *" :: (List.range (min z 64)).map fun k => s!"ok n={k + 1} ; *")
 
+/-- S: the finished data without its last `k` frames (frames are zero-free up to their delimiter) -/
+def specDel : Nat → List Byte → Option (List Byte)
+  | 0, w => some w
+  | k + 1, w =>
+    if w.isEmpty then none
+    else specDel k ((w.reverse.drop 1).dropWhile (· != 0)).reverse
+
+/-- is a message in progress?  Script-determined, except when bytes were handed over but none taken yet:
+    then the model's view decides (and `delAlts` lists both readings) -/
+def inProgress (s : St) (modelCtx : Bool) : Bool :=
+  if s.sbytes.isEmpty then false
+  else if s.cur.isEmpty then (match s.codec with | .cobs _ => modelCtx | .command => false)
+  else true
+
+/-- S for a deletion of `k` messages: a message in progress counts as the first one.  Whether the encoder
+    has seen a message in progress is determined by the script (bytes handed over since the last finished
+    frame) except when none of them has been taken yet: then both readings are listed. -/
+def delAlts (s : St) (k : Nat) (okText : List Byte → String) : String × List (List Byte) :=
+  let one (j : Nat) : String × List (List Byte) := match specDel j s.wire with
+    | some w => (okText w, [w])
+    | none => ("refused ; *", [])
+  if k = 0 then ("refused ; *", [])
+  else if s.sbytes.isEmpty then one k
+  else
+    let a := one (k - 1)
+    if s.cur.isEmpty then let b := one k; (a.1 ++ " || " ++ b.1, a.2 ++ b.2) else a
+
 /-- frame of the message in progress: the script's bytes; cuts (ZPE only) where the model's calls ended -/
 def curMarks (s : St) : List (Byte × Bool) := s.cur ++ markChunk s.pending
 
@@ -270,6 +297,25 @@ def step (s : St) (w : List String) : St × String :=
                          lastStart := s.lastEnd, lastEnd := o.st.done, haveFrame := true, lastMsg := s.sbytes }
       (s', encLine "ok" o.st o.win (toString o.ret) alts)
     | x => (s, encLine "refused" s.est s.win (resName x) alts)
+  | ["enc", "del", kk] =>
+    match kk.toNat? with
+    | some k =>
+      let (alts, _) := delAlts s k fun w => s!"ok ; {toHex w}"
+      match encodeDel s.codec s.est s.win k with
+      | .ok o =>
+        let s' := { s with est := o.st, win := o.win, pending := [], cur := [], sbytes := [],
+                           wire := ((specDel (if inProgress s (s.est.ctx ≠ 0) then k - 1 else k) s.wire).getD s.wire),
+                           haveFrame := false, lastEnd := o.st.done }
+        (s', encLine "ok" o.st o.win (toString o.ret) alts)
+      | x => ({ s with pending := [] }, encLine "refused" s.est s.win (resName x) alts)
+    | none => (s, "bad-op")
+  | ["enc", "nullwin", what] =>
+    -- the encoder is called with iov_base = NULL, iov_len = 0: nothing can be stored
+    let src : Option (Option (List Byte)) := if what = "term" then some none else (parseHex what).map some
+    match src with
+    | some src =>
+      (s, encLine "refused" s.est s.win (resName (encodeNull s.codec s.est src)) "refused ; *")
+    | none => (s, "bad-op")
   | ["enc", "check"] =>
     -- decode the last finished frame (model window content) with the reference decoder
     if !s.haveFrame then (s, "R none | C - | I - | S none ; *") else
@@ -317,6 +363,23 @@ def step (s : St) (w : List String) : St × String :=
       let r := if ret < 0 then s!"refused ret={drvErr ret}" else s!"ok ret={ret}"
       (s', s!"R {r} | C {toHex (buf.take a.st.done)} | I used={a.used} scratch={a.st.scratch} cap={buf.length} taken=0 | S {alts}")
     | x => (sp, s!"R refused ret={resName x} | C - | I - | S {alts}")
+  | ["apush", "del", kk] =>
+    match kk.toNat? with
+    | some 0 => (s, "bad-op")     -- `mpt_array_push(arr, 0, NULL)` is the termination
+    | some k =>
+      let (alts, _) := delAlts s k fun w => s!"ok ret={w.length} ; {toHex w}"
+      match arrayDel s.codec mallocFill s.arr k with
+      | .ok (a, ret) =>
+        let buf := a.buf.getD []
+        if ret < 0 then
+          ({ s with arr := a }, s!"R refused ret={drvErr ret} | C {toHex (buf.take a.st.done)} | I used={a.used} scratch={a.st.scratch} cap={buf.length} taken=0 | S {alts.replace "refused ;" s!"refused ret={drvErr ret} ;"}")
+        else
+          let s' := { s with arr := a, cur := [], sbytes := [],
+                             wire := ((specDel (if inProgress s (s.arr.st.ctx ≠ 0) then k - 1 else k) s.wire).getD s.wire),
+                             haveFrame := false, lastEnd := a.st.done }
+          (s', s!"R ok ret={ret} | C {toHex (buf.take a.st.done)} | I used={a.used} scratch={a.st.scratch} cap={buf.length} taken=0 | S {alts}")
+      | x => (s, s!"R refused ret={resName x} | C - | I - | S {alts}")
+    | none => (s, "bad-op")
   | ["apush", "check"] =>
     if !s.haveFrame then (s, "R none | C - | I - | S none ; *") else
     let buf := s.arr.buf.getD []
